@@ -108,6 +108,13 @@ func (k *KDC) AddPrincipal(name []string, password string, kvno int) *Principal 
 	return p
 }
 
+// SetErrorCode makes the KDC answer every request with this KRB-ERROR code (0: normal service); safe while serving.
+func (k *KDC) SetErrorCode(code int32) {
+	k.mu.Lock()
+	k.ErrorCode = code
+	k.mu.Unlock()
+}
+
 func (k *KDC) Principal(name []string) *Principal {
 	k.mu.Lock()
 	defer k.mu.Unlock()
